@@ -1,3 +1,89 @@
-(* C22 — WKProto frames round-trip exactly. (placeholder while the proofs are being written) *)
-From WK Require Import Base.Base Gen.Consts_C22 Model.WKProto.
+(* C22 — WKProto frames round-trip exactly.
+   For every protocol version v (any N: 0..LatestVersion and beyond), every one
+   of the twelve frame types, every header-flag combination and all field values
+   within the protocol limits ([within_limits]: Go field widths, strings up to
+   math.MaxInt16, SEND payload up to PayloadMaxSize, ClientSeq below 2^32 where it
+   travels as uint32, MessageSeq below 2^32 up to LegacyMessageSeqVersion, body up
+   to MaxRemaingLength).  [normalize v f] is f with the fields that version v does
+   not put on the wire set to zero; [normalize v f = f] for frames that only use
+   what the version carries.
+   Only statements, each closed by [exact] of a lemma from Proof/WKProto*.v. *)
+From WK Require Import Base.Base Base.Bytes Gen.Consts_C22 Model.WKProto.
+From WK Require Import Proof.WKProto Proof.WKProto_types Proof.WKProto_frame.
 Open Scope N_scope.
+
+(* encode succeeds; decoding the bytes — whatever follows them in the buffer —
+   yields the (normalized) frame with the frame type in its Framer, consumes
+   exactly the encoded length, and the precomputed size is that length *)
+Theorem c22_roundtrip : forall v f tail, within_limits v f = true ->
+  exists bs,
+    EncodeFrame f v = EncOk bs
+    /\ DecodeFrame (bs ++ tail) v
+       = DFrame (normalize v f) (Meta (frame_type f) (remlen_of f v) (blen bs + blen tail) false) (blen bs)
+    /\ encodedFrameSize f v = blen bs.
+Proof. exact roundtrip. Qed.
+Print Assumptions c22_roundtrip.
+
+(* frames that use only what the version carries come back equal *)
+Theorem c22_roundtrip_exact : forall v f tail, within_limits v f = true -> normalize v f = f ->
+  exists bs m,
+    EncodeFrame f v = EncOk bs /\ DecodeFrame (bs ++ tail) v = DFrame f m (blen bs)
+    /\ encodedFrameSize f v = blen bs.
+Proof. exact roundtrip_exact. Qed.
+Print Assumptions c22_roundtrip_exact.
+
+(* the size precomputation of every frame type is the number of body bytes written *)
+Theorem c22_body_size : forall v f, fields_ok v f = true ->
+  encodeBody f v = W (body_bytes f v)
+  /\ fst (encodedFrameBodySize f v) = blen (body_bytes f v).
+Proof. intros v f H. split; [exact (encodeBody_ok v f H)|exact (proj1 (body_size_ok v f H))]. Qed.
+Print Assumptions c22_body_size.
+
+(* no frame type has an empty body, so encodeVariable2 0 = [] (a header with no
+   length byte) is unreachable *)
+Theorem c22_body_nonzero : forall v f, is_pingpong f = false ->
+  snd (encodedFrameBodySize f v) = true -> 3 <= fst (encodedFrameBodySize f v).
+Proof. exact body_nonzero. Qed.
+Print Assumptions c22_body_nonzero.
+
+(* remaining-length varint, every length a frame can have *)
+Theorem c22_varint_roundtrip : forall n r, 0 < n -> n < 268435456 ->
+  decodeLength (encodeVariable2 n ++ r) = Some (n, blen (encodeVariable2 n)).
+Proof. exact decodeLength_enc. Qed.
+Print Assumptions c22_varint_roundtrip.
+
+(* fixed header: frame -> byte -> framer, all types and flag combinations *)
+Theorem c22_header_roundtrip : forall f, is_pingpong f = false ->
+  FramerFromUint8 (ToFixHeaderUint8 f) = (frame_type f, normalize_flags (frame_type f) (frame_flags f)).
+Proof. exact header_roundtrip. Qed.
+Print Assumptions c22_header_roundtrip.
+
+(* fixed header: every one of the 256 bytes -> framer -> byte (CONNACK keeps bit 0 only) *)
+Theorem c22_header_bytes : forall b, b < 256 ->
+  fix_header (fst (FramerFromUint8 b)) (snd (FramerFromUint8 b))
+  = if fst (FramerFromUint8 b) =? CONNACK then b - b mod 16 + b mod 2 else b.
+Proof. exact header_bytes. Qed.
+Print Assumptions c22_header_bytes.
+
+(* the monitor run on implementation traces accepts everything the model produces *)
+Theorem c22_model_satisfies_monitor : forall v f tail,
+  C22_monitor (C22Case v f tail (encodedFrameSize f v) (EncodeFrame f v)
+                 (match EncodeFrame f v with EncOk bs => Some (DecodeFrame (bs ++ tail) v) | _ => None end)
+                 true) = 0.
+Proof. exact model_satisfies_monitor. Qed.
+Print Assumptions c22_model_satisfies_monitor.
+
+(* non-vacuity: frames within limits exist for old and new versions, with the
+   version-gated fields present, and are exact *)
+Example c22_example_send_v4 :
+  let f := FSend (Flags true false true false false) 10 77 4294967295 2
+                 (hx "6b") (hx "6e6f") (hx "7331") (hx "6368") (hx "7470") (hx "00ff80") in
+  within_limits 4 f = true /\ normalize 4 f = f
+  /\ EncodeFrame f 4 = EncOk (hx "35200affffffff00026e6f0002733100026368020000004d00016b0002747000ff80").
+Proof. vm_compute. repeat split. Qed.
+
+Example c22_example_recv_v6_drops_stream :
+  let f := FRecv (Flags false true false true false) 2 0 1 18446744073709551615 9 1 5 1 0
+                 [] [] (hx "73") (hx "63") [] (hx "75") (hx "70") in
+  within_limits 6 f = true /\ normalize 6 f <> f /\ within_limits 5 f = false.
+Proof. vm_compute. repeat split. discriminate. Qed.
